@@ -603,6 +603,29 @@ func ruleMergeDispatch(c *Ctx, r *R) {
 		}
 	}
 	r.ok(gen, "chans.Merge|general-forward", fn.Pos(), "the reflect path must send the received value to out exactly when the receive reported ok")
+	// ... exactly: the send is not made to depend on anything else - in particular not on the ok of the conversion back to T,
+	// which is false for a nil value of an interface element type (the value would be dropped while the 1/2/3-input paths
+	// forward it)
+	for _, dd := range deepInstrs(fn, 2) {
+		snd, ok := dd.in.(*ssa.Send)
+		if !ok || argOf(snd.Chan, dd.calls) != ssa.Value(fn.Params[0]) {
+			continue
+		}
+		blocks := []*ssa.BasicBlock{snd.Block()}
+		for _, via := range dd.calls {
+			blocks = append(blocks, via.Block())
+		}
+		for _, bb := range blocks {
+			for _, g := range guardsOf(bb) {
+				bv, _ := g.boolVal()
+				if ex, ok := bv.(*ssa.Extract); ok && ex.Index == 1 {
+					if ta, ok := ex.Tuple.(*ssa.TypeAssert); ok && ta.CommaOk {
+						r.violated("chans.Merge|forward-unconditional-on-conversion", snd.Pos(), "the send to out is guarded by the ok of the type assertion back to the element type: a nil value of an interface element type fails that assertion and is dropped, although it was received from an input and must be forwarded")
+					}
+				}
+			}
+		}
+	}
 	// ... and the case taken out of the list when a receive reports "closed" is the one reflect.Select chose: removing (or
 	// overwriting) any other slot evicts a live input while the closed one stays and keeps firing
 	isChosen := func(v ssa.Value, chain []*ssa.Call) bool {
